@@ -30,6 +30,7 @@ pub struct World {
     pub entropy_calls: u64,
     pub now_unix: i64,
     pub clock_reads: u64,
+    pub pid: i32,
     /// Calls on simulator-owned objects that the model does not implement
     /// (fail-closed: the caller sees an error, the harness sees this list).
     pub unmodelled: Vec<String>,
@@ -45,6 +46,7 @@ impl World {
             entropy_calls: 0,
             now_unix: 0,
             clock_reads: 0,
+            pid: 4242,
             unmodelled: vec![],
         }
     }
@@ -176,6 +178,18 @@ pub unsafe extern "C" fn clock_gettime(clk: libc::clockid_t, ts: *mut libc::time
     match real!("clock_gettime", unsafe extern "C" fn(libc::clockid_t, *mut libc::timespec) -> c_int) {
         Some(f) => f(clk, ts),
         None => libc::syscall(libc::SYS_clock_gettime, clk, ts) as c_int,
+    }
+}
+
+/// Every simulated process has its own process id.
+#[no_mangle]
+pub unsafe extern "C" fn getpid() -> libc::pid_t {
+    if in_sim() {
+        return with_world(|w| w.pid);
+    }
+    match real!("getpid", unsafe extern "C" fn() -> libc::pid_t) {
+        Some(f) => f(),
+        None => libc::syscall(libc::SYS_getpid) as libc::pid_t,
     }
 }
 
